@@ -14,6 +14,7 @@ use std::collections::{BTreeMap, BTreeSet, HashMap};
 pub const MODEL: &str = "{
     Person{ name:String, nick:String nullable, parents:[Person], pet:Pet nullable }
     Pet{ name:String }
+    Box(no_full_text_index){ name:String, items:[Person] }
 }";
 
 #[derive(Clone, Debug, Serialize, Deserialize)]
@@ -44,6 +45,9 @@ pub enum Step {
     Create { node: usize, row: usize, room: usize, ent: u8, text: String, dt: i64 },
     Update { node: usize, row: usize, text: String, dt: i64 },
     Nick { node: usize, row: usize, text: Option<String>, dt: i64 },
+    /// a Person created (row not yet known) or renamed (row known) NESTED inside a mutation of a Box, an entity
+    /// declared without full-text index
+    InBox { node: usize, row: usize, room: usize, text: String, dt: i64 },
     RefAdd { node: usize, row: usize, target: usize, dt: i64 },
     RefDel { node: usize, row: usize, target: usize, dt: i64 },
     PetSet { node: usize, row: usize, target: usize, dt: i64 },
@@ -106,6 +110,7 @@ fn step_dt(st: &Step) -> i64 {
         Step::Create { dt, .. }
         | Step::Update { dt, .. }
         | Step::Nick { dt, .. }
+        | Step::InBox { dt, .. }
         | Step::RefAdd { dt, .. }
         | Step::RefDel { dt, .. }
         | Step::PetSet { dt, .. }
@@ -226,6 +231,11 @@ pub fn generate(seed: u64, property: &str, thorough: bool) -> Trace {
         let dt = gen_dt(&mut rw, day_bias);
         let live: Vec<usize> = (0..nrows).filter(|r| !deleted.contains(r)).collect();
         match k {
+            0 if property == "C17" && rw.chance(1, 6) => {
+                steps.push(Step::InBox { node, row: nrows, room: rw.usize(rooms), text: gen_text(&mut rw), dt });
+                row_ent.push(0);
+                nrows += 1;
+            }
             0 => {
                 let ent = if entities > 1 && rw.chance(1, 4) { 1 } else { 0 };
                 steps.push(Step::Create {
@@ -238,6 +248,13 @@ pub fn generate(seed: u64, property: &str, thorough: bool) -> Trace {
                 });
                 row_ent.push(ent);
                 nrows += 1;
+            }
+            1 if !live.is_empty() && property == "C17" && rw.chance(1, 5) => {
+                // rename through a mutation of an entity that is not indexed
+                let p: Vec<usize> = live.iter().cloned().filter(|r| row_ent[*r] == 0).collect();
+                if !p.is_empty() {
+                    steps.push(Step::InBox { node, row: *rw.pick(&p), room: 0, text: gen_text(&mut rw), dt });
+                }
             }
             1 if !live.is_empty() => {
                 let row = *rw.pick(&live);
@@ -559,6 +576,20 @@ pub fn directed(property: &str) -> Vec<Trace> {
                 vec!["C17"],
             ));
             out.push(mk(
+                "C17 indexed rows created and renamed nested inside a mutation of an entity that is not indexed",
+                1,
+                vec![
+                    Step::InBox { node: 0, row: 0, room: 0, text: "alpha v1".into(), dt: 1 },
+                    Step::Check,
+                    Step::InBox { node: 0, row: 0, room: 0, text: "bravo7 v2".into(), dt: 1000 },
+                    Step::Check,
+                    Step::Create { node: 0, row: 1, room: 0, ent: 0, text: "delta v3".into(), dt: 1000 },
+                    Step::InBox { node: 0, row: 1, room: 0, text: "kilo3 v4".into(), dt: 1000 },
+                    Step::Check,
+                ],
+                vec!["C17"],
+            ));
+            out.push(mk(
                 "C17 indexed row replaced by a newer version through a pull",
                 2,
                 vec![
@@ -681,7 +712,7 @@ fn setup(c: &mut Ctx) -> Result<(), String> {
     for _r in 0..c.cfg.rooms {
         let users: Vec<String> = keys.iter().map(|k| format!("{{verif_key:\"{k}\"}}")).collect();
         let q = format!(
-            r#"mutate {{ sys.Room{{ admin:[{{verif_key:"{}"}}] authorisations:[{{ name:"all" rights:[{{entity:"Person" mutate_self:true mutate_all:true}},{{entity:"Pet" mutate_self:true mutate_all:true}}] users:[{}] }}] }} }}"#,
+            r#"mutate {{ sys.Room{{ admin:[{{verif_key:"{}"}}] authorisations:[{{ name:"all" rights:[{{entity:"Person" mutate_self:true mutate_all:true}},{{entity:"Pet" mutate_self:true mutate_all:true}},{{entity:"Box" mutate_self:true mutate_all:true}}] users:[{}] }}] }} }}"#,
             keys[0],
             users.join(",")
         );
@@ -789,6 +820,51 @@ fn exec_step(c: &mut Ctx, st: &Step) -> Result<(), String> {
                 }
                 Err(e) => {
                     c.w.log.log(format!("update failed: {e}"));
+                    if e.starts_with("HUNG") {
+                        return Err(e);
+                    }
+                }
+            }
+        }
+        Step::InBox { node, row, room, text, dt } => {
+            let node = *node % c.cfg.nodes;
+            let _ = dt;
+            if !up(c, node) {
+                return Ok(());
+            }
+            while c.rows.len() <= *row {
+                c.rows.push(Row { id: None, ent: 0, room: *room % c.cfg.rooms });
+            }
+            let known = row_of(c, *row);
+            let (q, p, room_ix) = match &known {
+                Some((id, _, r)) => (
+                    "mutate { Box{ room_id:$r name:\"box\" items:[{ id:$id name:$n }] } }".to_string(),
+                    serde_json::json!({"r": c.rooms[*r].1, "id": id, "n": text}).to_string(),
+                    *r,
+                ),
+                None => {
+                    let r = *room % c.cfg.rooms;
+                    ("mutate { Box{ room_id:$r name:\"box\" items:[{ name:$n }] } }".to_string(), serde_json::json!({"r": c.rooms[r].1, "n": text}).to_string(), r)
+                }
+            };
+            let res = c.w.nodes[node].mutate(&q, Some(&p));
+            c.w.log.sched(format!("in-box n{node} known={} ok={}", known.is_some(), res.is_ok()));
+            match res {
+                Ok(r) => {
+                    let v: serde_json::Value = serde_json::from_str(&r).map_err(|e| e.to_string())?;
+                    let id = v["Box"]["items"][0]["id"].as_str().ok_or("no nested id")?.to_string();
+                    if known.is_none() {
+                        c.rows[*row] = Row { id: Some(id.clone()), ent: 0, room: room_ix };
+                        c.w.log.log(format!("row#{row} id={id}"));
+                    }
+                    c.last_written = Some(id);
+                    c.any_op = true;
+                    note_tokens(c, text);
+                    c.acked.entry(*row).or_default().insert(text.clone());
+                    after_local_write(c, node, room_ix, 0)?;
+                }
+                Err(e) => {
+                    c.w.log.log(format!("in-box failed: {e}"));
                     if e.starts_with("HUNG") {
                         return Err(e);
                     }
@@ -1653,7 +1729,12 @@ fn check_c03_equal(c: &mut Ctx) -> Result<(), String> {
                     let cdate: i64 = diff.split(" c=").nth(1).map(|s| s.split(' ').next().unwrap_or("0")).unwrap_or("0").parse().unwrap_or(0);
                     let m0 = d0.nodes.iter().find(|n| crate::kit::hex(&n.id) == src).map(|n| (n.mdate, n.signature.clone()));
                     let m1 = d.nodes.iter().find(|n| crate::kit::hex(&n.id) == src).map(|n| (n.mdate, n.signature.clone()));
+                    // or does it point to a row that one peer deleted while another wrote a newer version of it (the row
+                    // comes back everywhere, the references the deletion removed locally do not)?
+                    let dest = diff.split("dest=").nth(1).map(|s| s.split(' ').next().unwrap_or("")).unwrap_or("");
+                    let target_was_deleted = d0.node_del.iter().chain(d.node_del.iter()).any(|t| crate::kit::hex(&t.id) == dest);
                     match (m0, m1) {
+                        (Some(a), Some(b)) if a == b && target_was_deleted => "reference-to-a-row-deleted-on-one-peer-that-came-back-with-a-newer-version",
                         (Some(a), Some(b)) if a == b && cdate < a.0 => "reference-added-with-a-source-version-that-lost",
                         (Some(a), Some(b)) if a == b => "reference-missing-same-source-version",
                         _ => "source-row-differs",
